@@ -161,6 +161,8 @@ impl Direct {
         let evs: Vec<Event> = cmd.events().collect();
         let done = cmd.is_done();
         let live = cmd.verif_live_tasks();
+        // operation values that exist now: the ones in requests the shell holds (and nothing else, C13)
+        let ops = crate::app::live_ops() - self.ctx.ops_base;
         let mut new_ops = vec![];
         let mut ej = vec![];
         for e in effs {
@@ -174,6 +176,7 @@ impl Direct {
         m.insert("evs".into(), Value::Array(evs.iter().map(ev_json).collect()));
         m.insert("done".into(), json!(done));
         m.insert("live".into(), json!(live));
+        m.insert("ops".into(), json!(ops));
         m.insert("alive".into(), json!(crate::dsl::alive()));
         Obs { line, new_ops, kinds: vec![] }
     }
@@ -321,6 +324,10 @@ impl CoreHost {
         CoreHost { ctx, core: Core::new(), held: HashMap::new(), seen: 0 }
     }
     fn obs(&mut self, mut line: Value, effs: Vec<Effect>) -> Obs {
+        let ops = crate::app::live_ops() - self.ctx.ops_base;
+        if std::env::var_os("VERIF_OPS_DEBUG").is_some() {
+            eprintln!("OBS {} ops={ops} alive={:?}", line["e"], crate::dsl::alive());
+        }
         let mut new_ops = vec![];
         let mut ej = vec![];
         for e in effs {
@@ -329,6 +336,7 @@ impl CoreHost {
             new_ops.push(req.operation.clone());
             self.held.insert(req.operation.o, req);
         }
+        line.as_object_mut().unwrap().insert("ops".into(), json!(ops));
         let view = self.core.view();
         let delta: Vec<Value> = view.log[self.seen..].iter().map(ev_json).collect();
         self.seen = view.log.len();
